@@ -224,6 +224,7 @@ class BufferRoles:
                             ps = [x for x in f.params if x not in ('self', 'cls')]
                             self.load_set_param = ps.index(nm)
         if self.load is None:
+            self._diagnose_list_loader(ctx)
             raise AnalysisError('producer loader (nested coroutine with async for adding to a closure set) not found')
         if self.load_set_param is not None:
             # the set the daemon binds to that parameter
@@ -256,6 +257,64 @@ class BufferRoles:
         self.wait_anywhere = self.methods.get('wait_from_anywhere')
         self.entry_points = [self.methods[m] for m in ('__call__', 'await_', 'map', 'amap') if m in self.methods]
         self.gathers = [n for n in G.nodes if n.kind == 'await' and isinstance(n.ast.value, ast.Call) and call_name(G, n.ast.value) == 'asyncio.gather']
+
+    def _diagnose_list_loader(self, ctx: Ctx) -> None:
+        """The loader was rewritten to *return* what it loaded (a list built under its own guard) and the daemon merges
+        the lists into the round set.  That shape is not analysed further - but one thing about it is definite: adding a
+        caller's element to a set hashes it, and a merge that no handler covers lets the TypeError of an unhashable
+        argument end the daemon (in the closure form the add sits inside the per-producer guard)."""
+        if ctx.prop not in ('C03', 'C07'):
+            return
+        u, cls = self.u, self.cls
+        cands = []
+        for f in u.functions():
+            if not f.is_async:
+                continue
+            top = f
+            while top.enclosing_function() is not None:
+                top = top.enclosing_function()
+            if top.enclosing_class() not in (cls, None):
+                continue
+            has_for = any(isinstance(x, ast.AsyncFor) or (isinstance(x, ast.comprehension) and x.is_async) for x in own_nodes(f.node))
+            rets = [x for x in own_nodes(f.node) if isinstance(x, ast.Return) and x.value is not None]
+            if has_for and rets:
+                cands.append(f)
+        if not cands:
+            return
+        names = {f.name for f in cands}
+        for f in u.functions():
+            top = f
+            while top.enclosing_function() is not None:
+                top = top.enclosing_function()
+            if top.enclosing_class() is not cls:
+                continue
+            for x in own_nodes(f.node):
+                site = None
+                if isinstance(x, ast.Call) and isinstance(x.func, ast.Attribute) and x.func.attr in ('update', 'add') \
+                        and isinstance(x.func.value, ast.Name) and any(isinstance(y, ast.Await) for a in x.args for y in ast.walk(a)):
+                    site = x
+                elif isinstance(x, ast.AugAssign) and isinstance(x.op, ast.BitOr) and isinstance(x.target, ast.Name) \
+                        and any(isinstance(y, ast.Await) for y in ast.walk(x.value)):
+                    site = x
+                if site is None:
+                    continue
+                guarded = False
+                q = parent(site)
+                child = site
+                while q is not None and q is not f.node:
+                    if isinstance(q, ast.Try) and child in q.body:
+                        for h in q.handlers:
+                            tn = [] if h.type is None else [dotted(t_) or '' for t_ in (h.type.elts if isinstance(h.type, ast.Tuple) else [h.type])]
+                            if h.type is None or any(t_.split('.')[-1] in ('TypeError', 'Exception', 'BaseException') for t_ in tn):
+                                guarded = True
+                    child, q = q, parent(q)
+                rule = f'{ctx.prop}-L1'
+                ctx.rule(rule, 'elements enter the round set under a guard: an argument that cannot be hashed is logged and dropped, it does not end the daemon', 1)
+                ctx.check(rule, f'{f.qualname}: {norm(site)}', f'{FILE}:{site.lineno}', guarded,
+                          'the merge is covered by a handler',
+                          f'the loader ({", ".join(sorted(names))}) returns what it loaded and the merge into the round set happens outside every handler: the TypeError of an '
+                          'unhashable argument escapes the daemon task - nothing submitted afterwards is ever delivered and wait() hangs',
+                          construct=construct_key('BUFFER.daemon', 'merge outside the guard'))
 
     def _names_loader(self, e: ast.AST) -> bool:
         """`_load`, `self._load`, `Class._load` for the loader function"""
